@@ -214,6 +214,76 @@ def run(chk):
             cur = any(l.endswith("_cursor") for l in lhs)
             chk.ob(R3, sname + "|cursor-moved", cur, loc="%s:%d" % (UNIT, fn.line), detail="%s never moves _cursor off the removed node" % sname)
 
+    # ---------------------------------------------------------------- C08.d' the cursor is tested once per removed node
+    R4 = "R-CURSOR-PER-REMOVED-NODE"
+    chk.rule(R4, "on every path through remove_node / remove_nodes the number of `_cursor == <node>` tests is at least the number of nodes "
+                 "deactivated (_clear_flags(kIsActive)): no removed node can remain the cursor (counting dataflow over the CFG, order-insensitive)")
+    ncur = 0
+    for sname in ("BaseBuilder::remove_node", "BaseBuilder::remove_nodes"):
+        fn = fns[sname]
+
+        def kind(el, fn=fn):
+            x = fn.e(el)
+            if not x:
+                return 0
+            if x["k"] == "mcall" and x.get("cn") == "_clear_flags" and "kIsActive" in fn.text(el):
+                return 1
+            if x["k"] == "binop" and x["op"] in ("==", "!="):
+                if any((fn.access_path(x[side]) or "").endswith("_cursor") for side in ("lhs", "rhs")):
+                    return -1
+            return 0
+        nd = sum(1 for b in fn.blocks.values() for el in b["elems"] if isinstance(el, int) and kind(el) == 1)
+        nt = sum(1 for b in fn.blocks.values() for el in b["elems"] if isinstance(el, int) and kind(el) == -1)
+        ncur += nd
+
+        def transfer(b, st, fn=fn, kind=kind):
+            for el in fn.blocks[b]["elems"]:
+                if isinstance(el, int):
+                    k = kind(el)
+                    if k:
+                        st = frozenset(max(-3, min(3, d + k)) for d in st)
+            return st
+        IN, OUT = cfg.forward(fn, frozenset({0}), transfer, lambda ss: frozenset().union(*ss))
+        worst = max(IN.get(fn.exit, frozenset({0})) or {0})
+        # a loop that tests before deactivating leaves -1 at the loop head; what matters is that no exit is reached owing a test
+        chk.ob(R4, sname, nd >= 1 and nt >= 1 and worst <= 0, loc="%s:%d" % (UNIT, fn.line),
+               detail="%s: a path reaches the exit having deactivated more nodes than it compared with _cursor (%d deactivation sites, %d cursor tests): "
+                      "a removed node can stay the cursor and later nodes are linked to a dead chain" % (sname, nd, nt),
+               key="cursor-per-node|%s" % sname)
+    chk.floor(R4 + ":deactivations", ncur, 2)
+
+    # ---------------------------------------------------------------- C08.e the recorded element size is the concrete one
+    R5 = "R-DEABSTRACT-USED"
+    chk.rule(R5, "a function that de-abstracts a TypeId (TypeUtils::deabstract) computes sizes only from the de-abstracted value: the Builder's "
+                 "data node and the Assembler's direct emission must agree on the element size of intptr/uintptr")
+    nde = 0
+    fa = chk.facts("asmjit/core/assembler.cpp", funcs=r"asmjit::BaseAssembler::embed_data_array$")
+    cand = [cfg.Fn(fo) for fo in fa["functions"]] + list(fns.values())
+    for fn in cand:
+        de = [(i, x) for i, x in fn.calls() if x.get("cn") == "deabstract"]
+        if not de:
+            continue
+        final = set()
+        for x in fn.ex.values():
+            if x["k"] == "decl":
+                for v in x["vars"]:
+                    if v.get("init") and any(i in set(fn.walk(v["init"])) for i, _ in de):
+                        final.add(v["did"])
+            elif x["k"] == "binop" and x["op"] == "=" and any(i in set(fn.walk(x["rhs"])) for i, _ in de):
+                l = fn.e(fn.strip(x["lhs"]))
+                if l and "did" in l:
+                    final.add(l["did"])
+        for i, x in fn.calls():
+            if x.get("cn") != "size_of":
+                continue
+            nde += 1
+            refs = [fn.e(j) for j in fn.walk(i) if j != i and fn.e(j) and fn.e(j)["k"] == "ref" and fn.e(j).get("dk") in ("parm", "local")]
+            good = bool(refs) and all(r.get("did") in final for r in refs)
+            chk.ob(R5, "%s|size_of@%s" % (fn.name.replace("asmjit::", ""), fn.text(i)[:40]), good or not final, loc="%s:%d" % (fn.file.replace("/repo/", ""), x.get("l", fn.line)),
+                   detail="%s computes `%s` from the abstract type id although the de-abstracted value exists: intptr/uintptr have abstract size 0" % (fn.name, fn.text(i)[:60]),
+                   key="deabstract|%s" % fn.name)
+    chk.floor(R5 + ":size_of-sites", nde, 2)
+
     return chk.finish(
         level="other",
         explanation=("Capture/replay coverage rules over BaseBuilder in /repo's current source: each node-creating override is replayed by "
